@@ -15,8 +15,10 @@ EXTENDS StateJournal, Json, TraceLib
 
 Trace == LoadTrace("trace.ndjson")
 
-VARIABLES l, roots
-tvars == <<base, stack, shadow, staged, committed, nops, l, roots>>
+VARIABLES l, roots,
+          sroots,     \* storage-root name -> storage map: registry of BuildStorageTrie results (bijection as for roots)
+          parked, cur \* other live State objects of the same database (sibling states): id -> its variables; id of the current one
+tvars == <<base, stack, shadow, staged, committed, side, nops, l, roots, sroots, parked, cur>>
 TraceView == l
 
 Ev == Trace[l]
@@ -32,22 +34,33 @@ ReadOK(b, stk, r) ==
   /\ r.ms = m.ms
   /\ r.cd = m.cd /\ r.ch = m.cd
   /\ r.ex = ~IsEmpty(m)
-  /\ \A j \in DOMAIN r.st : LET v == ReadSt(b, stk, r.a, r.st[j][1]) IN r.st[j][2] = v /\ r.st[j][3] = v
-ReadsOK == \A i \in DOMAIN Ev.rd : ReadOK(base', stack', Ev.rd[i])
+  \* per key: GetRawStorage, GetStorage (or statedb.GetState), DecodeStorage
+  /\ \A j \in DOMAIN r.st : LET v == ReadSt(b, stk, r.a, r.st[j][1]) IN \A n \in 2..Len(r.st[j]) : r.st[j][n] = v
+  \* through runtime/statedb: Exist, Empty, GetCodeSize (as the id of the code of that size), HasSuicided
+  /\ (Has(r, "sx") => (r.sx = ~IsEmpty(m) /\ r.sm = IsEmpty(m) /\ r.cs = m.cd))
+ReadsOK == /\ \A i \in DOMAIN Ev.rd : ReadOK(base', stack', Ev.rd[i])
+           /\ \A i \in DOMAIN Ev.rd : Has(Ev.rd[i], "hs") => (Ev.rd[i].hs = (Ev.rd[i].a \in SideSui(side'.stk)))
+           \* statedb side journal: GetLogs (events, transfers in order) and GetRefund
+           /\ Has(Ev, "sj") =>
+                LET lg == SideLogs(side'.stk) IN
+                /\ Ev.sj.ev = SelectSeq(lg, LAMBDA x : x[1] = 1)
+                /\ Ev.sj.tr = SelectSeq(lg, LAMBDA x : x[1] = 2)
+                /\ Ev.sj.rf = SideRefund(side'.stk)
 
 \* equal content <=> equal root
 RootOK(r, c) == IF r \in DOMAIN roots THEN roots[r] = c ELSE \A q \in DOMAIN roots : roots[q] # c
 
-TraceInit == Init /\ l = 1 /\ roots = EmptyFn /\ HWMInit
+TraceInit == Init /\ l = 1 /\ roots = EmptyFn /\ sroots = EmptyFn /\ parked = EmptyFn /\ cur = 1 /\ HWMInit
 
 \* a fresh database and an empty State; the root registry is global
 TReset ==
   /\ IsEvent("Reset")
   /\ base' = EmptyFn /\ stack' = <<EmptyLevel>> /\ shadow' = <<EmptyFn>>
-  /\ staged' = NoStage /\ committed' = <<>> /\ nops' = 0
-  /\ UNCHANGED roots /\ Step
+  /\ staged' = NoStage /\ committed' = <<>> /\ side' = SideInit /\ nops' = 0
+  /\ parked' = EmptyFn /\ cur' = 1
+  /\ UNCHANGED <<roots, sroots>> /\ Step
 
-Plain(A) == A /\ ReadsOK /\ UNCHANGED roots /\ Step
+Plain(A) == A /\ ReadsOK /\ UNCHANGED <<roots, sroots, parked, cur>> /\ Step
 
 TSetBalance == IsEvent("SetBalance") /\ Plain(SetBalance(Ev.a, Ev.v))
 TSetEnergy == IsEvent("SetEnergy") /\ Plain(SetEnergy(Ev.a, Ev.v, Ev.t))
@@ -55,12 +68,22 @@ TSetMaster == IsEvent("SetMaster") /\ Plain(SetMaster(Ev.a, Ev.v))
 TSetCode == IsEvent("SetCode") /\ Plain(SetCode(Ev.a, Ev.v))
 TSetStorage == IsEvent("SetStorage") /\ Plain(SetStorage(Ev.a, Ev.k, Ev.v))
 TSetRawStorage == IsEvent("SetRawStorage") /\ Plain(SetRawStorage(Ev.a, Ev.k, Ev.v))
+TEncodeStorage == IsEvent("EncodeStorage") /\ Plain(EncodeStorage(Ev.a, Ev.k, Ev.v))
 TDelete == IsEvent("Delete") /\ Plain(Delete(Ev.a))
 \* runtime/statedb.Suicide: deletes only an existing account and says whether it did
-TSuicide ==
-  /\ IsEvent("Suicide")
-  /\ Ev.res = Exists(base, stack, Ev.a)
-  /\ Plain(IF Ev.res THEN Delete(Ev.a) ELSE (UNCHANGED <<base, stack, shadow, staged, committed>> /\ Tick))
+TSuicide == IsEvent("Suicide") /\ Ev.res = Exists(base, stack, Ev.a) /\ Plain(Suicide(Ev.a))
+TAddLog == IsEvent("AddLog") /\ Plain(AddLog(1, Ev.id))
+TAddTransfer == IsEvent("AddTransfer") /\ Plain(AddLog(2, Ev.id))
+TAddRefund == IsEvent("AddRefund") /\ Plain(AddRefund(Ev.v))
+\* State.BuildStorageTrie(a).Hash(), called while the address was not deleted in this State: commits to the storage the
+\* State reads for a;  equal storage <=> equal storage root over the whole trace
+TBuildStorageTrie ==
+  /\ IsEvent("BuildStorageTrie")
+  /\ Barrier(stack, Ev.a) = 0
+  /\ LET c == StorageOf(base, stack, Ev.a) IN
+       /\ IF Ev.sroot \in DOMAIN sroots THEN sroots[Ev.sroot] = c ELSE \A q \in DOMAIN sroots : sroots[q] # c
+       /\ sroots' = Upd(sroots, Ev.sroot, c)
+  /\ UNCHANGED <<base, stack, shadow, staged, committed, side, roots, parked, cur>> /\ Tick /\ Step
 TNewCheckpoint == IsEvent("NewCheckpoint") /\ Ev.rev = Len(stack) /\ Plain(NewCheckpoint)
 TRevertTo == IsEvent("RevertTo") /\ Plain(RevertTo(Ev.rev))
 TStage ==
@@ -68,21 +91,43 @@ TStage ==
   /\ Stage
   /\ RootOK(Ev.root, staged'.c)
   /\ roots' = Upd(roots, Ev.root, staged'.c)
-  /\ ReadsOK /\ Step
+  /\ ReadsOK /\ UNCHANGED <<sroots, parked, cur>> /\ Step
 TCommit ==
   /\ IsEvent("Commit")
   /\ Commit
   /\ Ev.ci = Len(committed')
   /\ Ev.root \in DOMAIN roots /\ roots[Ev.root] = staged.c
-  /\ UNCHANGED roots /\ Step
+  /\ UNCHANGED <<roots, sroots, parked, cur>> /\ Step
 TReopen ==
   /\ IsEvent("Reopen")
   /\ Ev.ci \in 1..Len(committed)
   /\ Ev.root \in DOMAIN roots /\ roots[Ev.root] = committed[Ev.ci]
-  /\ Plain(Reopen(Ev.ci))
+  /\ Plain(Reopen(Ev.ci))       \* state.New or State.Checkout
+\* a second live State object on the same database: the current one is parked under its id, a new State opened from
+\* a committed root becomes the current one
+Snapshot == [base |-> base, stack |-> stack, shadow |-> shadow, staged |-> staged, side |-> side]
+TFork ==
+  /\ IsEvent("Fork")
+  /\ Ev.id # cur /\ Ev.id \notin DOMAIN parked
+  /\ Ev.ci \in 1..Len(committed)
+  /\ Ev.root \in DOMAIN roots /\ roots[Ev.root] = committed[Ev.ci]
+  /\ parked' = Upd(parked, cur, Snapshot) /\ cur' = Ev.id
+  /\ Reopen(Ev.ci) /\ ReadsOK
+  /\ UNCHANGED <<roots, sroots>> /\ Step
+\* continue with another live State object (both keep their journals; they share only the database = `committed`)
+TSwitch ==
+  /\ IsEvent("Switch")
+  /\ Ev.to \in DOMAIN parked
+  /\ LET p == parked[Ev.to] IN
+       /\ base' = p.base /\ stack' = p.stack /\ shadow' = p.shadow /\ staged' = p.staged /\ side' = p.side
+  /\ parked' = [x \in ((DOMAIN parked) \ {Ev.to}) \cup {cur} |-> IF x = cur THEN Snapshot ELSE parked[x]]
+  /\ cur' = Ev.to
+  /\ UNCHANGED committed /\ Tick
+  /\ ReadsOK /\ UNCHANGED <<roots, sroots>> /\ Step
 
 TraceNext == \/ TReset \/ TSetBalance \/ TSetEnergy \/ TSetMaster \/ TSetCode \/ TSetStorage \/ TSetRawStorage
-             \/ TDelete \/ TSuicide \/ TNewCheckpoint \/ TRevertTo \/ TStage \/ TCommit \/ TReopen
+             \/ TEncodeStorage \/ TDelete \/ TSuicide \/ TAddLog \/ TAddTransfer \/ TAddRefund \/ TBuildStorageTrie
+             \/ TNewCheckpoint \/ TRevertTo \/ TStage \/ TCommit \/ TReopen \/ TFork \/ TSwitch
 TraceSpec == TraceInit /\ [][TraceNext]_tvars
 
 Progress == HWM(l)
